@@ -34,6 +34,10 @@ M={
         wmo.version = target_version;''')),
  'mutant-6':('MOGP size back-patched without the sub-chunks (header only)', lambda: rep(W,'let mogp_size = end_pos - mogp_pos - 8; // Subtract header size','let mogp_size = _subchunks_start - mogp_pos - 8; let _ = end_pos; // header only')),
  'mutant-7':('MOSB written for every version (also Classic/TBC)', lambda: rep(W,'if target_version.supports_feature(WmoFeature::SkyboxReferences) && wmo.skybox.is_some() {\n            self.write_skybox','if wmo.skybox.is_some() {\n            self.write_skybox')),
+ 'mutant-8':('MOGI name offsets accumulate name.len() without the NUL (needs >= 2 groups)', lambda: rep(W,'name_offset += group.name.len() as u32 + 1; // +1 for null terminator','name_offset += group.name.len() as u32;')),
+ 'mutant-9':('SkyboxReferences feature threshold moved from WotLK to Cataclysm (needs ver = WotLK and a skybox)', lambda: rep(WT+'/file-formats/graphics/wow-wmo/src/version.rs','Self::SkyboxReferences => WmoVersion::Wotlk,','Self::SkyboxReferences => WmoVersion::Cataclysm,')),
+ 'mutant-10':('MOHD n_doodad_sets written from doodad_defs.len() (needs |sets| != |defs|)', lambda: rep(W,'writer.write_u32_le(wmo.doodad_sets.len() as u32)?;','writer.write_u32_le(wmo.doodad_defs.len() as u32)?;')),
+ 'mutant-11':('convert_materials clears the shadow-batch flags also when upgrading to MoP (pairs 1..4 -> 5 only)', lambda: rep(C,'if to_version < WmoVersion::Mop && from_version >= WmoVersion::Mop {','if (to_version < WmoVersion::Mop) != (from_version < WmoVersion::Mop) {')),
  'refactor-1':('MODS emitted before MODN/MODD (order of the format documentation)', lambda: rep(W,'''        self.write_doodad_definitions(writer, &wmo.doodad_defs, target_version)?;
         self.write_doodad_sets(writer, &wmo.doodad_sets)?;''','''        self.write_doodad_sets(writer, &wmo.doodad_sets)?;
         self.write_doodad_definitions(writer, &wmo.doodad_defs, target_version)?;''')),
